@@ -119,6 +119,39 @@ def shard(arg):
                 rng = fw.rng_for("c06r", seed, n, rows) if h % 20 == 0 else None
                 acc.see(gens, "enumerated", rng)
         acc.finish()
+    elif kind == "bases":
+        # the id must not depend on the generating set: all bases for n <= 3, many random dense bases per group for n = 4
+        _, n, shard_list, per_group, seed = arg
+        import itertools
+        acc = Acc(n, rep)
+        for sh in shard_list:
+            for rows in groups.enum_shard(n, (tuple(sh[0]), sh[1])):
+                gens = groups.to_paulis(rows, n)
+                ref = acc.see(gens, "enumerated")
+                if ref is None:
+                    continue
+                if n <= 3:
+                    elems = [e for e in pauli.span(gens)[1:]]
+                    cands = (list(c) for c in itertools.permutations(elems, n))
+                else:
+                    rng = fw.rng_for("c06b", seed, n, rows)
+                    cands = (members.random_basis_change(gens, rng, steps=rng.randrange(4, 6 * n)) for _ in range(per_group))
+                for g2 in cands:
+                    if n <= 3 and len(set(pauli.span_xz(g2))) != (1 << n):
+                        continue
+                    rep.evaluations += 1
+                    rep.count("generating_sets_tried", f"n={n}")
+                    try:
+                        cid2 = int(lib_id(n, g2))
+                    except Exception as e:  # noqa: BLE001
+                        cid2 = type(e).__name__
+                    if cid2 != ref:
+                        case = {"n": n, "gens": [[g[0], g[1], g[2]] for g in gens], "gens2": [[g[0], g[1], g[2]] for g in g2],
+                                "strings": [pauli.to_str(g, n) for g in gens], "strings2": [pauli.to_str(g, n) for g in g2]}
+                        rep.fail(f"n={n}:basis-dependence:id={ref}", case,
+                                 f"same group, other generating set: id {ref} for {case['strings']} but {cid2} for {case['strings2']}")
+                        break
+        acc.finish()
     elif kind == "member":
         _, n, orbits, k, seed = arg
         acc = Acc(n, rep)
@@ -176,6 +209,10 @@ def run(ctx):
         sh = [[list(P), r] for (P, r) in groups.shards(n, by_first_row=(n == 5))]
         for chunk in fw.split(sh, 1 if n < 4 else (4 if n == 4 else 48)):
             args.append(("enum", n, chunk, ctx.seed, None))
+    for n in (2, 3, 4):
+        sh = [[list(P), r] for (P, r) in groups.shards(n, by_first_row=False)]
+        for chunk in fw.split(sh, 1 if n == 2 else (8 if n == 3 else 32)):
+            args.append(("bases", n, chunk, 40 if ctx.quick else 600, ctx.seed))
     reps6 = members.orbit_reps(6)
     k6 = 40 if ctx.quick else 120
     for chunk in fw.split(reps6, 48):
